@@ -319,6 +319,7 @@ class World(object):
         t = Transport(self.reactor, c)
         c.transport = t
         p = BGP()
+        p.init_rib()          # what connectionMade() does first: the tables of this connection
         p.factory = self.peering
         p.bgp_peering = self.peering
         p.fsm = self.fsm
